@@ -551,4 +551,157 @@ Proof.
   cbn [stR]. eapply RX_trans; [|apply set_recovering_RX]. rx_same.
 Qed.
 
+(* ------------------------------------------------------------------ a whole poll: an invariant kept by
+   every RX step, by the processing of one message and by the channel-closed arm of the receive loop is kept
+   by poll, whatever the result *)
+Section InvPoll.
+Variable Inv : vsock -> Prop.
+Hypothesis Inv_RX : forall s s', RX s s' -> Inv s -> Inv s'.
+Hypothesis Inv_msg : forall s m rest, Inv s -> v_inbox s = m :: rest ->
+  match process_incoming_message cci (set_inbox s rest) m with
+  | SOk s' _ | SErr s' _ => Inv s'
+  | SPanic => True
+  end.
+Hypothesis Inv_closed : forall s, Inv s -> v_inbox_closed s = true -> Inv (set_state s Closed).
+
+Definition stI {A} (m : step A) : Prop :=
+  match m with SOk s' _ | SErr s' _ => Inv s' | SPanic => True end.
+
+Lemma stRX_stI {A} s (m : step A) : Inv s -> stRX s m -> stI m.
+Proof. intros Hi H. destruct m; cbn [stR stI] in *; eauto. Qed.
+
+Lemma stI_bind {A B} (m : step A) (f : vsock -> A -> step B) :
+  stI m -> (forall s1 a, Inv s1 -> stI (f s1 a)) -> stI (sbind m f).
+Proof. intros Hm Hf. destruct m as [s1 a|s1 e|]; cbn [sbind stI] in *; auto. Qed.
+
+Lemma recv_loop_Inv : forall fuel s acc, Inv s -> stI (recv_loop cci fuel s acc).
+Proof.
+  assert (Hbase : forall (s : vsock) (acc : on_ack_result), Inv s ->
+    stI (if v_inbox_closed s
+         then sbind (maybe_send_fin (transition_to_fin_wait_1 s))
+                    (fun s2 _ => SOk (set_state s2 Closed) (acc, true))
+         else SOk (set_inbox_waker s true) (acc, false))).
+  { intros s acc Hi. destruct (v_inbox_closed s) eqn:Hc.
+    - assert (H1 : Inv (transition_to_fin_wait_1 s)) by (eapply Inv_RX; [apply transition_RX|exact Hi]).
+      assert (C1 : v_inbox_closed (transition_to_fin_wait_1 s) = true).
+      { destruct (transition_RX s) as (_ & _ & X & _). congruence. }
+      pose proof (maybe_send_fin_RX (transition_to_fin_wait_1 s)) as Hf.
+      destruct (maybe_send_fin _) as [s2 b|s2 e|]; cbn [sbind stI stR] in *; auto.
+      + apply Inv_closed; [eapply Inv_RX; eauto|]. destruct Hf as (_ & _ & X & _). congruence.
+      + eapply Inv_RX; eauto.
+    - cbn [stI]. eapply Inv_RX; [|exact Hi]. rx_same. }
+  induction fuel as [|m0 fuel IH]; intros s acc Hi; cbn [recv_loop];
+    destruct (v_inbox s) as [|m rest] eqn:Ei; try (apply Hbase; exact Hi); try exact I.
+  apply stI_bind; [apply (Inv_msg s m rest Hi Ei)|].
+  intros s1 r H1. destruct (_ || _); [exact H1|apply IH; exact H1].
+Qed.
+
+Lemma process_all_Inv (s : vsock) : Inv s -> stI (process_all_incoming_messages cci s).
+Proof.
+  intro Hi. rewrite process_all_eq. apply stI_bind; [apply recv_loop_Inv; exact Hi|].
+  intros s1 res H1. eapply stRX_stI; [exact H1|apply pa_tail_RX].
+Qed.
+
+Definition IR (s s' : vsock) : Prop := Inv s -> Inv s'.
+
+Lemma stRX_IR {A} s (m : step A) : stRX s m -> stR IR s m.
+Proof. destruct m; cbn [stR]; unfold IR; eauto. Qed.
+
+Theorem poll_Inv (s s' : vsock) r : poll cci s = (s', r) -> Inv (poll_init s) -> Inv s'.
+Proof.
+  intros H Hi. revert Hi. change (IR (poll_init s) s').
+  apply (poll_R cci IR ltac:(unfold IR; auto) ltac:(unfold IR; auto)) with (r := r); try exact H.
+  - intros s0. unfold IR. apply Inv_RX, poll_start_RX.
+  - intros s0. apply stRX_IR, maybe_send_syn_ack_RX.
+  - intros s0. apply stRX_IR, send_ack_RX.
+  - intros s0. pose proof (process_all_Inv s0) as P.
+    destruct (process_all_incoming_messages cci s0); cbn [stR stI] in *; unfold IR; auto.
+  - intros s0 rx1 fb w E. unfold IR. apply Inv_RX. eapply rx_flush_RX; exact E.
+  - intros s0. apply stRX_IR, split_RX.
+  - intros s0. apply stRX_IR, send_tx_queue_RX.
+  - intros s0. unfold IR. apply Inv_RX, transition_RX.
+  - intros s0. apply stRX_IR, maybe_send_fin_RX.
+  - intros s0. apply stRX_IR, maybe_send_ack_RX.
+  - intros s0 e. unfold IR. apply Inv_RX, just_before_death_RX.
+  - intros s0. unfold IR. apply Inv_RX, poll_tail_RX.
+Qed.
+
+(* the same by parts: the body of one iteration from any of its cut points, and the restart loop *)
+Definition brI (r : body_res) : Prop :=
+  match r with BrReturn s' _ | BrRestart s' => Inv s' | BrPanic => True end.
+
+Lemma die_I (s : vsock) e : Inv s -> brI (die s e).
+Proof. intro Hi. unfold die. cbn [brI]. eapply Inv_RX; [apply just_before_death_RX|exact Hi]. Qed.
+
+Lemma bail_I {A} (m : step A) k :
+  stI m -> (forall s1 a, Inv s1 -> brI (k s1 a)) -> brI (bail m k).
+Proof.
+  intros Hm Hk. unfold bail. destruct m as [s1 a|s1 e|]; cbn [stI] in Hm; [| |exact I].
+  - destruct (v_restart s1); [exact Hm|apply Hk; exact Hm].
+  - apply die_I; exact Hm.
+Qed.
+
+Lemma pend_I {A} (m : step A) k :
+  stI m -> (forall s1 a, Inv s1 -> brI (k s1 a)) -> brI (pend m k).
+Proof.
+  intros Hm Hk. unfold pend. apply bail_I; [exact Hm|].
+  intros s1 a H1. destruct (v_transport_pending s1); [exact H1|].
+  destruct (v_restart s1); [exact H1|apply Hk; exact H1].
+Qed.
+
+Lemma body_finish_Inv (s : vsock) : Inv s -> brI (body_finish s).
+Proof.
+  intro Hi. unfold body_finish. destruct (state_is_closed _ _).
+  { cbn [brI]. eapply Inv_RX; [apply just_before_death_RX|exact Hi]. }
+  pose proof (poll_tail_RX s) as F. unfold poll_tail in F.
+  destruct (next_timer_to_poll _) as [sx t]. destruct t; cbn [brI]; eapply Inv_RX; eauto.
+Qed.
+
+Lemma body_back_Inv (s6 : vsock) : Inv s6 -> brI (body_back s6).
+Proof.
+  intro H6. unfold body_back.
+  assert (H7 : Inv (if should_close_on_own_initiative s6 then transition_to_fin_wait_1 s6 else s6)).
+  { destruct (should_close_on_own_initiative s6); [eapply Inv_RX; [apply transition_RX|exact H6]|exact H6]. }
+  revert H7. generalize (if should_close_on_own_initiative s6 then transition_to_fin_wait_1 s6 else s6).
+  intros s7 H7.
+  apply pend_I; [eapply stRX_stI; [exact H7|apply maybe_send_fin_RX]|]. intros s8 _ H8.
+  apply pend_I; [eapply stRX_stI; [exact H8|apply maybe_send_ack_RX]|]. intros s9 _ H9.
+  apply body_finish_Inv; exact H9.
+Qed.
+
+Lemma body_mid_back_Inv (s3 : vsock) : Inv s3 -> brI (body_mid cci body_back s3).
+Proof.
+  intro H3. unfold body_mid. destruct (rx_flush (v_rx s3)) as [[rx1 fr] w] eqn:Efl.
+  destruct fr as [fb|]; [|exact I]. cbv beta iota zeta.
+  assert (H4 : Inv (add_wakes (set_rx s3 rx1) (rx_wakes w))).
+  { eapply Inv_RX; [eapply rx_flush_RX; exact Efl|exact H3]. }
+  revert H4. generalize (add_wakes (set_rx s3 rx1) (rx_wakes w)). intros s4 H4.
+  destruct (timer_expired _ _); [apply die_I; exact H4|].
+  apply bail_I; [eapply stRX_stI; [exact H4|apply split_RX]|]. intros s5 _ H5.
+  apply pend_I; [eapply stRX_stI; [exact H5|apply send_tx_queue_RX]|]. intros s6 _ H6.
+  apply body_back_Inv; exact H6.
+Qed.
+
+Lemma poll_body_Inv (s0 : vsock) : Inv s0 -> brI (poll_body cci s0).
+Proof.
+  intro H0. rewrite poll_body_parts. unfold body_front, body_head.
+  assert (Hs : Inv (body_start s0)) by (eapply Inv_RX; [apply (poll_start_RX s0)|exact H0]).
+  revert Hs. generalize (body_start s0). intros s Hs.
+  apply pend_I; [eapply stRX_stI; [exact Hs|apply maybe_send_syn_ack_RX]|]. intros s1 _ H1.
+  apply pend_I.
+  { destruct (immediate_ack_to_transmit s1); [eapply stRX_stI; [exact H1|apply send_ack_RX]|exact H1]. }
+  intros s2 _ H2.
+  apply pend_I; [apply process_all_Inv; exact H2|]. intros s3 _ H3.
+  apply body_mid_back_Inv; exact H3.
+Qed.
+
+Lemma poll_loop_Inv : forall fuel (s : vsock), Inv s -> Inv (fst (poll_loop cci fuel s)).
+Proof.
+  induction fuel as [|fuel IH]; intros s Hi; cbn [poll_loop]; [exact Hi|].
+  pose proof (poll_body_Inv s Hi) as B.
+  destruct (poll_body cci s) as [s' r|s'|]; cbn [fst brI] in *; auto.
+Qed.
+
+End InvPoll.
+
 End WithCC.
